@@ -163,16 +163,19 @@ class _RecInliner(ast.NodeTransformer):
                         target=Name(id=name, ctx=Store()),
                         value=value)
 
+            # The temporaries introduced below are assigned with := inside the
+            # rewritten method: their names must not clash with its locals
+            # (IdentityMapper.map_numpy_array has a local called 'result').
             if self.inline_rec:
                 result_expr = IfExp(
                     test=is_not_none(
-                        expr_assign("mname",
+                        expr_assign("_opt_mname",
                             getattr_sym(expr, Constant(value="mapper_method")))),
                     body=IfExp(
                         test=is_not_none(
-                            expr_assign("method", getattr_sym(
-                                    self_sym, Name(id="mname", ctx=Load())))),
-                        body=_replace(node, func=Name(id="method", ctx=Load())),
+                            expr_assign("_opt_method", getattr_sym(
+                                    self_sym, Name(id="_opt_mname", ctx=Load())))),
+                        body=_replace(node, func=Name(id="_opt_method", ctx=Load())),
                         orelse=fallback_call),
                     orelse=fallback_call)
 
@@ -188,21 +191,21 @@ class _RecInliner(ast.NodeTransformer):
                 result_expr = IfExp(
                         test=Compare(
                             left=expr_assign(
-                                "result",
+                                "_opt_result",
                                 Call(
                                     func=Attribute(value=cache, attr="get"),
                                     args=[
                                         expr_assign(
-                                            "cache_key",
+                                            "_opt_cache_key",
                                             cache_key_expr),
                                         nic
                                         ], keywords=[])),
                                 ops=[IsNot()], comparators=[nic]),
-                        body=Name(id="result", ctx=Load()),
+                        body=Name(id="_opt_result", ctx=Load()),
                         orelse=Call(
                             func=Name(id="_set_and_return", ctx=Load()),
                             args=[cache,
-                                    Name(id="cache_key", ctx=Load()),
+                                    Name(id="_opt_cache_key", ctx=Load()),
                                     result_expr], keywords=[]))
 
         return result_expr
